@@ -173,9 +173,9 @@ PROPS = {
         "partial": ["label: partial (protocol proved for all N and interleavings; footprint of the Go code by race detector)"],
     },
     "C02": {
-        "translators": ["translator_c01"],
+        "translators": ["translator_c01", "translator_c02"],
         "generators": [("f64", 3000, 60000), ("c02", 6000, 160000), ("c02tiny", 16000, 400000)],
-        "modules": ["S2.F64", "S2.STUV", "S2.Exact", "S2.Pred"],
+        "modules": ["S2.F64", "S2.STUV", "S2.Exact", "S2.Pred", "S2.BigF"],
         "rule": "unit-length triples / (x,a,b) / (x,y,r) built to sit on the decision boundaries: c = rn(s*a+t*b) +-2 ulps, "
                 "exactly coplanar points (coordinate planes, plane x==y, great circle through a and b, antipodes), identical / "
                 "1-2 ulp apart / antipodal pairs, tangent-plane lattices (1, u*2^-k, v*2^-k) for k in 30..1074 (collinear and "
@@ -312,7 +312,8 @@ PROPS = {
     "C03": {
         # (generator, quick n, thorough n); c03 emits ~1.6 op lines per unit of n (quads, NewEdgeCrosser fields, angles, histories)
         "generators": [("c03", 12000, 300000)],
-        "modules": ["S2.Crossing", "S2.Crosser", "S2.Pred", "S2.Exact", "S2.STUV", "S2.F64"],
+        "translators": ["translator_c02"],
+        "modules": ["S2.Crossing", "S2.Crosser", "S2.Pred", "S2.Exact", "S2.STUV", "S2.F64", "S2.BigF"],
         "rule": "quadruples (a,b,c,d) of unit vectors: fixed edge AB general / tiny (separations 2^-k down to subnormal) / a few ulps / "
                 "long (near 180 degrees, nearly antipodal) / degenerate / in a coordinate plane / 45-135 degrees; C and D chosen relative to AB: "
                 "shared vertices (1-4), revisited, on the great circle of AB +- ulps, inside AB (T junctions, overlapping collinear edges), "
